@@ -10,6 +10,7 @@ PR = M + 'process.'
 WV = M + 'weaver.Weaver.'
 IA = M + 'interval.IntervalArray.'
 MT = M + 'match.'
+RF = M + 'rfa.'
 
 A_REAL = ("A-real: float/float64 arithmetic is treated as exact real arithmetic (rounding, overflow, NaN/inf, -0.0 not "
           "modelled); every proved equality is an equality over the reals")
@@ -148,6 +149,18 @@ PROPS = {
                      "[i, j] -> i*n+j for loads and stores, row-major layout with NaN exactly on the padding, block average = mean of "
                      "the non-padding entries + first abscissa of each row; all for symbolic lengths and n."),
         assumptions=[A_REAL, A_LEN, "NumPy array-algebra contracts (linspace, flatten, repeat, insert, pad, reshape, nanmean, ...)"],
+    ),
+    'C04': dict(
+        monitor_quick=[RF + c + '.rfa' for c in ('PiecewiseConstantRFA', 'FunctionRFA', 'LinearFixedRFA', 'ExpFixedRFA')],
+        functions=[RF + 'AbstractRFA.__init__'] + [RF + c + '.__init__' for c in ('LinearFixedRFA', 'ExpFixedRFA', 'LinearAdaptiveRFA', 'ExpAdaptiveRFA')]
+        + [RF + c + '.rfa' for c in ('PiecewiseConstantRFA', 'FunctionRFA', 'LinearFixedRFA', 'ExpFixedRFA')]
+        + [SAU + f for f in ('oversample_linspace', 'oversample_piecewise_constant', 'extend_linspace', 'extend_constant')]
+        + [IA + m for m in ('__init__', '__getitem__', '__setitem__', 'nr_of_full_intervals')],
+        level='proof',
+        explanation=("Protocol clause `grid_ok` (two ndarrays of exactly (m-1)*n+1 samples, every n-th abscissa an original one, linear "
+                     "spacing in between) proved as the postcondition of each strategy's rfa() for symbolic m and n; the constructors "
+                     "raise ValueError exactly when n < 2."),
+        assumptions=[A_REAL, A_LEN],
     ),
     'C08': dict(
         monitor_quick=WEAVER_MUTATORS,
